@@ -83,6 +83,15 @@ type Result struct {
 	R2B map[sharing.ID]*rsess.Round2Broadcast
 	R2U map[sharing.ID]map[sharing.ID]*rsess.Round2P2P
 	R3U map[sharing.ID]map[sharing.ID]*rsess.Round3P2P
+	// messages AS DELIVERED (after CBOR + hook), by recipient, then sender; a dropped or
+	// undecodable message is absent
+	InR1B map[sharing.ID]map[sharing.ID]*rsess.Round1Broadcast
+	InR2B map[sharing.ID]map[sharing.ID]*rsess.Round2Broadcast
+	InR2U map[sharing.ID]map[sharing.ID]*rsess.Round2P2P
+	InR3U map[sharing.ID]map[sharing.ID]*rsess.Round3P2P
+	// Undec[id] = r: a message delivered to id as input of round r did not decode (the
+	// party rejected in round r without running the round function)
+	Undec map[sharing.ID]int
 }
 
 var (
@@ -216,6 +225,7 @@ func RunFull(cfg Config) *Result {
 		})
 	}
 	in1 := deliverB(tr, cfg.Hook, 1, ids, alive, res.R1B)
+	res.InR1B = in1
 
 	// ---- round 2
 	for _, id := range ids {
@@ -237,6 +247,7 @@ func RunFull(cfg Config) *Result {
 		})
 	}
 	in2b, in2u := deliverBU(tr, cfg.Hook, 2, ids, alive, res.R2B, res.R2U)
+	res.InR2B, res.InR2U = in2b, in2u
 
 	// ---- round 3
 	for _, id := range ids {
@@ -257,6 +268,13 @@ func RunFull(cfg Config) *Result {
 		})
 	}
 	_, in3u := deliverBU[*rsess.Round2Broadcast](tr, cfg.Hook, 3, ids, alive, nil, res.R3U)
+	res.InR3U = in3u
+	res.Undec = map[sharing.ID]int{}
+	for _, id := range ids {
+		if v, ok := tr.Verdicts[id]; ok && v.Class == "reject" && strings.HasPrefix(v.Detail, "undecodable message") {
+			res.Undec[id] = v.Round
+		}
+	}
 
 	// ---- round 4
 	for _, id := range ids {
